@@ -263,6 +263,7 @@ def run(ctx: Ctx) -> None:
     _memo.rule_isinstance_on_class(ctx, ['graphiq/circuit/circuit_dag.py', 'graphiq/backends/compiler_base.py', 'graphiq/metrics.py'])
     _memo.rule_zip_truncation(ctx, ['graphiq/circuit/circuit_dag.py', 'graphiq/backends/compiler_base.py', 'graphiq/metrics.py'])
     _memo.rule_search_fallthrough(ctx, ['graphiq/circuit/circuit_dag.py', 'graphiq/backends/compiler_base.py', 'graphiq/metrics.py'])
+    _memo.rule_zip_pairing(ctx, ['graphiq/circuit/circuit_dag.py', 'graphiq/backends/compiler_base.py', 'graphiq/metrics.py'])
     effects.rule_inplace_on_input(ctx)
     effects.rule_shared_op_store(ctx)
     effects.rule_alias_into_state(ctx)
